@@ -330,12 +330,20 @@ def run_program(spec):
             info["reads"] += 1
             if name in ("atcorenums", "charge"):
                 model.touch_default()
+            # reference: the same property read first on a copy taken just before (reads of *other*
+            # properties may fill in the lazy default core charges, so obs[name], which was read
+            # after atcorenums / charge, is not the reference)
+            probe = copy.deepcopy(data)
+            try:
+                expected = getattr(probe, name)
+            except Exception as exc:
+                expected = ("raises", repr(exc))
             try:
                 got = getattr(data, name)
             except Exception as exc:
                 return [Problem(f"C11/read_raises/{name}", f"{when}: {exc!r}")], info
-            if not same(got, obs[name]):
-                return [Problem("C11/read_differs_from_copy", f"{when}: {got!r} vs {obs[name]!r}")], info
+            if not same(got, expected):
+                return [Problem("C11/read_differs_from_copy", f"{when}: {got!r} vs {expected!r}")], info
             new_obs, problems = observe(data)
             bad = obs_equal(obs, new_obs)
             if bad is not None:
@@ -389,11 +397,24 @@ def run_program(spec):
                 Problem(f"C11/readback/{attr}", f"{when}: reads back {rev_obs[attr]!r} (reverse read order)")
             )
         if attr in ("charge", "nelec", "spinpol"):
-            # clearing (None) is not asserted to read back as None: a cleared electron count is
-            # legitimately re-derived from a stored charge once core charges are known
             if val is not None and not same(new_obs[attr], val):
                 problems.append(
                     Problem(f"C11/readback/{attr}", f"{when}: reads back {new_obs[attr]!r}")
+                )
+            if attr in ("nelec", "spinpol") and val is None and model.mo is None:
+                # read first on a fresh copy: a later read of atcorenums / charge may legitimately
+                # re-derive the electron count from a stored charge (lazy default core charges)
+                direct = getattr(copy.deepcopy(data), attr)
+                if direct is not None:
+                    problems.append(
+                        Problem(f"C11/clear_readback/{attr}", f"{when}: {attr} was cleared but reads back {direct!r}")
+                    )
+            if attr == "charge" and val is None and model.mo is None and new_obs["charge"] is not None:
+                # clearing the charge is a successful assignment too; without orbitals nothing can
+                # re-derive a charge, so it must read back as cleared
+                core_kind = "explicit_core" if model.core is not None else ("default_core" if model.atnums is not None else "no_core")
+                problems.append(
+                    Problem(f"C11/clear_readback/charge/{core_kind}", f"{when}: charge was cleared but reads back {new_obs['charge']!r}")
                 )
             if not same(new_obs["atcorenums"], obs["atcorenums"]):
                 problems.append(
